@@ -61,6 +61,12 @@ class FBond(_Fake):
             return BT_DOUBLE[name]
         return float(self.bt)
 
+    def GetBondType(self):
+        return self.bt
+
+    def GetIsAromatic(self):
+        return getattr(self.bt, 'name', None) == 'AROMATIC'
+
     def GetBeginAtomIdx(self):
         return self.i
 
@@ -173,6 +179,18 @@ class FChem(metaclass=_FakeMeta):
     def SanitizeMol(m, *a, **kw):
         return None
 
+    @staticmethod
+    def MolToSmiles(m, *a, **kw):
+        """a canonical string: the same for the same molecule whatever the order of its atoms (Weisfeiler-Lehman hash
+        over element, concrete charge and bond type; symbolic charges are left out of the key)"""
+        g = nx.Graph()
+        for a_ in m.atoms:
+            q = a_.charge
+            g.add_node(a_.idx, lab="%s%s" % (a_.symbol, '' if symx.is_sym(q) else q))
+        for b in m.bonds:
+            g.add_edge(b.i, b.j, lab=str(getattr(b.bt, 'name', b.bt)))
+        return 'canon:' + nx.weisfeiler_lehman_graph_hash(g, node_attr='lab', edge_attr='lab')
+
     @classmethod
     def AddHs(cls, m, *a, **kw):
         # AddHs appends hydrogens after the existing atoms (documented); how many is chemistry: a shape parameter
@@ -235,15 +253,47 @@ class SymVec:
     def tolist(self):
         return list(self.xs)
 
+    def __iter__(self):
+        return iter(self.xs)
 
-class FNp:
+    def __len__(self):
+        return len(self.xs)
+
+    def __getitem__(self, i):
+        return self.xs[i]
+
+
+class _NpMeta(type):
+    def __getattr__(cls, name):
+        import numpy
+        if name.startswith('_') or not hasattr(numpy, name):
+            raise AttributeError(name)
+        raise symx.Unsupported('numpy function outside the model of position vectors: np.%s' % name)
+
+
+class FNp(metaclass=_NpMeta):
     @staticmethod
-    def zeros(n):
+    def zeros(n, *a, **kw):
+        if not isinstance(n, int):
+            raise symx.Unsupported('np.zeros with a shape other than a length')
         return SymVec([0] * n)
 
     @staticmethod
-    def array(xs):
+    def array(xs, *a, **kw):
+        if isinstance(xs, FRows):
+            return xs.copy()
+        if isinstance(xs, SymVec):
+            return xs.copy()
+        xs = list(xs)
+        if xs and isinstance(xs[0], (SymVec, list, tuple)):
+            return FRows([list(r) for r in xs])
         return SymVec(xs)
+
+    asarray = array
+
+    @staticmethod
+    def copy(x):
+        return x.copy()
 
 
 def vec_list(v):
@@ -314,6 +364,9 @@ class C18(core.Prop):
                                     # an explicitly written hydrogen that is not last in the graph's iteration order
                                     out.append({'mode': mode, 'n': n, 'edges': [list(e) for e in edges], 'perm': list(p),
                                                 'keyset': keyset, 'extra_h': extra_h, 'h_second': True})
+                                    # history: the same molecule, its nodes listed in the reverse order, was embedded before
+                                    out.append({'mode': mode, 'n': n, 'edges': [list(e) for e in edges], 'perm': list(p),
+                                                'keyset': keyset, 'extra_h': extra_h, 'before': 'same_reversed'})
         for nbeads, nmem in ((2, 2), (2, 3)) if q else ((2, 2), (2, 3), (3, 2), (2, 4)):
             for shared in (False, True):
                 out.append({'mode': 'forward', 'nbeads': nbeads, 'nmem': nmem, 'shared': shared})
@@ -411,6 +464,12 @@ class C18(core.Prop):
         FAllChem.positions = [tuple(p) for p in inp['pos']]
         if shape['mode'] == 'embed':
             def run():
+                if shape.get('before') == 'same_reversed':
+                    g0 = nx.Graph()
+                    for k in reversed(list(g.nodes)):
+                        g0.add_node(k, **g.nodes[k])
+                    g0.add_edges_from(g.edges(data=True))
+                    M.rdkit.embed_3d_via_rdkit(g0)
                 M.rdkit.embed_3d_via_rdkit(g)
                 return {'pos': {n: (vec_list(d['position']) if 'position' in d else None) for n, d in g.nodes(data=True)},
                         'symbols': list(FAllChem.last_symbols or [])}
